@@ -1,6 +1,6 @@
 (* Props/C04.v — property C04: HSMS frames are bit-exact and reassembled independently of TCP segmentation. *)
 From SG Require Import Base.Prelude Base.Kinds Gen.ProtoConsts Spec.E4E37Frames Model.Secs2 Model.Frames Model.HsmsRx.
-From SG Require Import Proofs.FramesProofs Proofs.RxProofs Base.PyRt Gen.PyHsmsHdr Proofs.PyHsmsHdrProofs.
+From SG Require Import Proofs.FramesProofs Proofs.RxProofs Base.PyRt Gen.PyHsmsHdr Proofs.PyHsmsHdrProofs Base.PyRt Gen.RxLoop Proofs.RxLoopProofs.
 From Coq Require Import Lia.
 Open Scope N_scope.
 
@@ -73,3 +73,21 @@ Example C04_header_code_sample :
   hh_encode (hh_of (fst sample_m)) = Ok [65535; 255; 255; 0; 0; 4294967295]%Z /\
   hh_decode 65535 255 255 0 0 4294967295 = Ok (hh_of (fst sample_m)) /\ hh_decode 0 0 0 0 8 0 = Err EValue.
 Proof. repeat split; vm_compute; reflexivity. Qed.
+
+(* The framing loop is tied to the source by a theorem: HsmsProtocol._process_received_data is translated statement by statement on every run
+   (harness/gen_rxloop.py -> Gen/RxLoop.v: the guard, the while loop, peek / unpack / pop, the try around HsmsBlock.decode, the direct hand-over
+   of replies and queue_block; the ByteQueue methods are checked to be plain slices of one bytearray; any other state of the protocol object read
+   or written in the loop stops the translator).  For every buffer, whatever the session state and whoever waits for a reply, one run of it
+   leaves the bytes the model's `drain` leaves and treats the same frames in the same order the same way. *)
+Theorem C04_receive_loop_code_is_model : forall is_data is_reply selected buf,
+  let '(b, _, outs, _) := drain (S (length buf)) buf in
+  let '(b', tr', _) := rx_process frame hframe_decode is_data is_reply selected buf in
+  b' = b /\ map ev_out tr' = outs.
+Proof. exact rx_process_is_drain. Qed.
+Print Assumptions C04_receive_loop_code_is_model.
+Example C04_receive_loop_sample :
+  let f := [0;0;0;10; 0;0;0x81;1;0;0; 0;0;0;7]%N in
+  map ev_out (snd (fst (rx_process frame hframe_decode (fun _ => true) (fun _ => false) true (f ++ [0;0;0;3;9;9;9] ++ f ++ [0;0]))))
+  = [Delivered {| h_system := 7; h_session := 0; h_stream := 1; h_function := 1; h_w := true; h_ptype := 0; h_stype := 0 |} []; Dropped;
+     Delivered {| h_system := 7; h_session := 0; h_stream := 1; h_function := 1; h_w := true; h_ptype := 0; h_stype := 0 |} []]%Z.
+Proof. vm_compute. reflexivity. Qed.
